@@ -71,7 +71,7 @@ fn render(d: NaiveDate, t: NaiveTime, off: FixedOffset) -> Buf<36> {
     render_wall(d, t, off, &[Item::Fixed(Fixed::RFC3339)])
 }
 
-// @ob tier=quick timeout=900 mem=14
+// @ob tier=quick timeout=900 mem=8
 // @desc RFC 3339 writer, date part: for every wall-clock date with year 0..=9999 (time fixed to 12:34:56, offset +00:00) the text starts with YYYY-MM-DD in zero-padded digits equal to the date's fields, followed by T12:34:56+00:00
 // @bounds all dates with year 0..=9999; time of day and offset concrete (the writer emits date, time and offset independently of each other)
 // @funcs write_rfc3339 (date part), write_hundreds
@@ -91,48 +91,120 @@ fn c10_writer_date_part() {
     kani::cover!(m == 2 && dd == 29);
 }
 
-// @ob tier=quick timeout=900 mem=14
-// @desc RFC 3339 writer, time / fraction / offset part: on the fixed wall-clock date 2001-07-08, for every time of day (second 60 for a leap second), every fraction and every whole-minute offset the text is HH:MM:SS, then the shortest of 0/3/6/9 fraction digits that loses nothing (never rounded), then +HH:MM / -HH:MM with exact hours and minutes
-// @bounds all times of day incl. leap fraction on second 59 x all whole-minute offsets in (-24h, 24h); date concrete
-// @funcs write_rfc3339 (time, AutoSi fraction), OffsetFormat::format, write_hundreds
+// The time / fraction / offset part is decided by separate harnesses for the clock digits, the leap second, each
+// fraction class and the offset: a single harness over all of them did not finish within the quick cap (AutoSi picks
+// 0/3/6/9 digits by three remainder tests and prints through core::fmt's zero padding; with the fraction symbolic all of
+// that stays in the formula even when only the clock digits are asserted). The writer computes the clock digits, the
+// leap adjustment (`sec += 1; nano -= 10^9`) and the fraction text one after the other from separate inputs.
+// @ob tier=quick timeout=900 mem=8
+// @desc RFC 3339 writer, clock digits: on the fixed wall-clock date 2001-07-08 at +00:00, for every whole second of the day the text is 2001-07-08THH:MM:SS+00:00 with zero-padded hour, minute and second, and no fraction
+// @bounds all 86400 seconds of the day, fraction 0 (concrete); date and offset concrete
+// @funcs write_rfc3339 (time), NaiveTime::hms, write_hundreds
 #[kani::proof]
 #[kani::unwind(12)]
-fn c10_writer_time_part() {
+fn c10_writer_time_hms() {
     let secs: u32 = kani::any();
-    let frac: u32 = kani::any();
-    kani::assume(secs < 86_400 && (frac < 1_000_000_000 || (frac < 2_000_000_000 && secs % 60 == 59)));
-    let t = NaiveTime::from_num_seconds_from_midnight_opt(secs, frac).unwrap();
+    kani::assume(secs < 86_400);
+    let t = NaiveTime::from_num_seconds_from_midnight_opt(secs, 0).unwrap();
+    let buf = render(NaiveDate::from_ymd_opt(2001, 7, 8).unwrap(), t, FixedOffset::east_opt(0).unwrap());
+    let b = &buf.b;
+    assert!(buf.len == 25 && b[0] == b'2' && b[3] == b'1' && b[5] == b'0' && b[6] == b'7' && b[8] == b'0' && b[9] == b'8' && b[10] == b'T');
+    assert!(dig(b[11]) && dig(b[12]) && b[13] == b':' && dig(b[14]) && dig(b[15]) && b[16] == b':' && dig(b[17]) && dig(b[18]));
+    assert!(two(b, 11) == secs / 3600 && two(b, 14) == secs / 60 % 60 && two(b, 17) == secs % 60);
+    assert!(b[19] == b'+' && b[20] == b'0' && b[21] == b'0' && b[22] == b':' && b[23] == b'0' && b[24] == b'0');
+    kani::cover!(secs == 0);
+    kani::cover!(secs == 86_399);
+}
+
+// @ob tier=quick timeout=900 mem=8
+// @desc RFC 3339 writer, leap second: a time in the leap representation (second 59 with fraction 10^9 + f) prints second 60 and the fraction f, for every minute of the day and f = 0 or 500 ms
+// @bounds all 1440 minutes x f in {0, 500_000_000}; date and offset concrete
+// @funcs write_rfc3339 (leap adjustment)
+#[kani::proof]
+#[kani::unwind(12)]
+fn c10_writer_time_leap() {
+    let m: u32 = kani::any();
+    kani::assume(m < 1440);
+    let half: bool = kani::any();
+    let t = NaiveTime::from_num_seconds_from_midnight_opt(m * 60 + 59, 1_000_000_000 + if half { 500_000_000 } else { 0 }).unwrap();
+    let buf = render(NaiveDate::from_ymd_opt(2001, 7, 8).unwrap(), t, FixedOffset::east_opt(0).unwrap());
+    let b = &buf.b;
+    assert!(two(b, 11) == m / 60 && two(b, 14) == m % 60 && b[17] == b'6' && b[18] == b'0');
+    if half {
+        assert!(buf.len == 29 && b[19] == b'.' && b[20] == b'5' && b[21] == b'0' && b[22] == b'0' && b[23] == b'+');
+    } else {
+        assert!(buf.len == 25 && b[19] == b'+');
+    }
+    kani::cover!(half);
+    kani::cover!(m == 1439);
+}
+
+macro_rules! frac_class {
+    ($name:ident, $nd:expr) => {
+        // @ob tier=quick timeout=900 mem=12
+        // @desc RFC 3339 writer, fraction: at the fixed wall clock 2001-07-08T12:34:56+00:00, for every fraction that needs exactly the stated number of digits (3: whole milliseconds, 6: whole microseconds, 9: anything else; 0 digits is c10_writer_time_hms) the text carries exactly that many fraction digits, equal to the fraction (never rounded, never shortened further)
+        // @bounds all fractions of one digit class per harness (the classes partition all non-zero fractions); date, clock time and offset concrete
+        // @funcs write_rfc3339 (SecondsFormat::AutoSi fraction), core::fmt zero padding
+        #[kani::proof]
+        #[kani::unwind(12)]
+        fn $name() {
+            let k: u32 = kani::any();
+            let nd: usize = $nd;
+            let ns: u32 = match nd {
+                3 => {
+                    kani::assume(k >= 1 && k <= 999);
+                    k * 1_000_000
+                }
+                6 => {
+                    kani::assume(k >= 1 && k <= 999_999 && k % 1000 != 0);
+                    k * 1000
+                }
+                _ => {
+                    kani::assume(k >= 1 && k <= 999_999_999 && k % 1000 != 0);
+                    k
+                }
+            };
+            let t = NaiveTime::from_hms_nano_opt(12, 34, 56, ns).unwrap();
+            let buf = render(NaiveDate::from_ymd_opt(2001, 7, 8).unwrap(), t, FixedOffset::east_opt(0).unwrap());
+            let b = &buf.b;
+            assert!(b[10] == b'T' && b[11] == b'1' && b[12] == b'2' && b[17] == b'5' && b[18] == b'6' && b[19] == b'.');
+            let mut v: u32 = 0;
+            let mut i = 0;
+            while i < 9 {
+                if i < nd {
+                    assert!(dig(b[20 + i]));
+                    v = v * 10 + (b[20 + i] - b'0') as u32;
+                }
+                i += 1;
+            }
+            assert!(v == k);
+            let p = 20 + nd;
+            assert!(b[p] == b'+' && b[p + 1] == b'0' && b[p + 2] == b'0' && b[p + 3] == b':' && b[p + 4] == b'0' && b[p + 5] == b'0');
+            assert!(buf.len == p + 6);
+            kani::cover!(k == 1);
+        }
+    };
+}
+frac_class!(c10_writer_frac_millis, 3);
+frac_class!(c10_writer_frac_micros, 6);
+frac_class!(c10_writer_frac_nanos, 9);
+
+// @ob tier=quick timeout=900 mem=8
+// @desc RFC 3339 writer, offset part: on the fixed wall clock 2001-07-08T12:34:56, for every whole-minute offset the text ends with +HH:MM / -HH:MM with exact hours and minutes (never `Z`, which only to_rfc3339_opts(.., true) may print)
+// @bounds all whole-minute offsets in (-24h, 24h); date and time concrete
+// @funcs write_rfc3339 (offset), OffsetFormat::format
+#[kani::proof]
+#[kani::unwind(12)]
+fn c10_writer_offset_part() {
     let mins: i32 = kani::any();
     kani::assume(mins > -1440 && mins < 1440);
     let off = FixedOffset::east_opt(mins * 60).unwrap();
-    let buf = render(NaiveDate::from_ymd_opt(2001, 7, 8).unwrap(), t, off);
+    let buf = render(NaiveDate::from_ymd_opt(2001, 7, 8).unwrap(), NaiveTime::from_hms_opt(12, 34, 56).unwrap(), off);
     let b = &buf.b;
-    assert!(b[0] == b'2' && b[3] == b'1' && b[5] == b'0' && b[6] == b'7' && b[8] == b'0' && b[9] == b'8' && b[10] == b'T');
-    assert!(dig(b[11]) && dig(b[12]) && b[13] == b':' && dig(b[14]) && dig(b[15]) && b[16] == b':' && dig(b[17]) && dig(b[18]));
-    let leap = frac >= 1_000_000_000;
-    assert!(two(b, 11) == secs / 3600 && two(b, 14) == secs / 60 % 60 && two(b, 17) == secs % 60 + if leap { 1 } else { 0 });
-    let ns = frac % 1_000_000_000;
-    let nd: usize = if ns == 0 { 0 } else if ns % 1_000_000 == 0 { 3 } else if ns % 1000 == 0 { 6 } else { 9 };
-    let mut p = 19;
-    if nd > 0 {
-        assert!(b[19] == b'.');
-        let mut v: u32 = 0;
-        let mut i = 0;
-        while i < 9 {
-            if i < nd {
-                assert!(dig(b[20 + i]));
-                v = v * 10 + (b[20 + i] - b'0') as u32;
-            }
-            i += 1;
-        }
-        let scale = if nd == 3 { 1_000_000 } else if nd == 6 { 1000 } else { 1 };
-        assert!(v * scale == ns);
-        p = 20 + nd;
-    }
+    assert!(buf.len == 25 && b[10] == b'T' && b[11] == b'1' && b[12] == b'2' && b[17] == b'5' && b[18] == b'6');
     let a = if mins < 0 { -mins } else { mins } as u32;
-    assert!(b[p] == if mins < 0 { b'-' } else { b'+' } && b[p + 3] == b':' && two(b, p + 1) == a / 60 && two(b, p + 4) == a % 60);
-    assert!(buf.len == p + 6);
-    kani::cover!(leap);
-    kani::cover!(nd == 6);
+    assert!(b[19] == if mins < 0 { b'-' } else { b'+' } && dig(b[20]) && dig(b[21]) && b[22] == b':' && dig(b[23]) && dig(b[24]));
+    assert!(two(b, 20) == a / 60 && two(b, 23) == a % 60);
+    kani::cover!(mins == 0);
     kani::cover!(mins < 0);
 }
